@@ -50,7 +50,8 @@ static inline void doEnter(Inst& in) { in.probe.activating = true; in.m->enter()
 static inline void doExit (Inst& in) { in.m->exit();  in.active = false; }
 #endif
 
-#ifdef HFSM2_ENABLE_SERIALIZATION
+#if defined(HFSM2_ENABLE_SERIALIZATION) && !defined(VH_NO_SERIAL)
+#define VH_SERIAL 1
 static inline void saveLoad(Driver& d, Inst& from, Inst& to, long step) {
 	typename Instance::SerialBuffer buf;
 	from.probe.step = (uint64_t)step;
